@@ -4,7 +4,15 @@ import glob
 import json
 import os
 
+import io
+import sys
+
 HERE = os.path.dirname(os.path.dirname(os.path.abspath(__file__)))
+SPLICE = '--splice' in sys.argv
+if SPLICE:
+    _out = io.StringIO()
+    _real = sys.stdout
+    sys.stdout = _out
 st = json.load(open(os.path.join(HERE, 'evidence', 'selftest.json')))
 by = {}
 for r in st['results']:
@@ -32,3 +40,13 @@ for r in st['results']:
     tp = r.get('tests_pass')
     print(f"| {r['name']} | {r['property'] if isinstance(r['property'], str) else '/'.join(r['property'])} | {'pass' if tp else 'FAIL (reported only)'} | "
           f"{'yes' if r['caught'] else '**no**'} | {what} |")
+
+if SPLICE:
+    sys.stdout = _real
+    p = os.path.join(HERE, 'DESIGN.md')
+    s = open(p).read()
+    a = s.index('<!-- TABLES:BEGIN')
+    a = s.index('\n', a) + 1
+    b = s.index('<!-- TABLES:END -->')
+    open(p, 'w').write(s[:a] + _out.getvalue() + s[b:])
+    print('spliced', len(_out.getvalue().splitlines()), 'lines into DESIGN.md')
